@@ -117,9 +117,13 @@ def sensorFrame (flipX : V → V) (k : Sens G V) (lo hi : Nat) (B : List (List (
 
 def pixNum (k : Sens G V) : Nat := k.pixShape.foldl (· * ·) 1
 
-/-- cumulative pixel indices `pix_inds` -/
-def pixInds (sensors : List (Sens G V)) : List Nat :=
-  sensors.foldl (fun acc k => acc ++ [acc.getLastD 0 + pixNum k]) [0]
+/-- `np.cumsum([a] + ns)` -/
+def cumsum (a : Nat) : List Nat → List Nat
+  | [] => [a]
+  | n :: ns => a :: cumsum (a + n) ns
+
+/-- cumulative pixel indices `pix_inds = np.cumsum([0] + pix_nums)` -/
+def pixInds (sensors : List (Sens G V)) : List Nat := cumsum 0 (sensors.map pixNum)
 
 def applySensors (flipX : V → V) (sensors : List (Sens G V)) (B : List (List (List V))) :
     List (List (List V)) :=
